@@ -154,6 +154,8 @@ class _RecMixin:
                 self._resume_after(loop, delay)
 
     def _resume_after(self, loop, delay):
+        if delay is None:
+            return              # stays paused until the scenario resumes it
         if delay <= 0:
             loop.call_soon(self._resume)
         else:
